@@ -171,6 +171,10 @@ def _site(chk, prog, f, c, name, bi, si, oi, only=None, skip=()):
                 inst = "%s:%s" % (f.name, name)
                 loop = f.loop_of(c.bb)
                 if loop is None:
+                    if _fast_path_with_fallback(prog, f, c, si):
+                        chk.ok("K10-loop", inst, c, "single attempt; anything but a complete transfer is handed, advanced by the count, to a "
+                               "helper that loops (judged there)")
+                        return
                     chk.violation("K10-loop", inst, c, "%s is not called in a retry loop: a short count truncates the transfer" % name)
                     return
                 header, body = loop
@@ -339,6 +343,63 @@ def _site(chk, prog, f, c, name, bi, si, oi, only=None, skip=()):
                     else:
                         chk.violation("K10-advance", inst + ":" + what, c, "after a short %s the %s operand is not advanced by "
                                       "the number of bytes transferred: data is lost or duplicated" % (name, what))
+
+
+def _fast_path_with_fallback(prog, f, c, si):
+    """`r = xfer(fd, buf, n, off); if (r == n) done; else ... rest(fd, buf + r, n - r, off + r)`: the call is tried once, its
+    result is compared with the full length, and no success return is reachable on the other side without a call of a
+    same-unit function that issues the transfer itself and is given a length formed by subtracting the count"""
+    res = [c] + [u for u in f.uses.get(c, []) if u.op in ("sext", "zext", "trunc")]
+    # `r = n > 0 ? xfer(...) : 0`
+    for r0 in list(res):
+        for u in f.uses.get(r0, []):
+            if u.op == "phi" and all(o is r0 or (o.is_const and o.is_int and o.sval == 0) for o in u.ops):
+                res.append(u)
+                res += [w for w in f.uses.get(u, []) if w.op in ("sext", "zext", "trunc")]
+    n = strip_casts(c.ops[si])
+    for r in res:
+        for u in f.uses.get(r, []):
+            if u.op != "icmp" or u.pred not in ("eq", "ne"):
+                continue
+            other = u.ops[1] if strip_casts(u.ops[0]) is strip_casts(r) or u.ops[0] is r else u.ops[0]
+            o2 = other
+            while o2.is_inst and o2.op in ("sext", "zext", "trunc"):
+                o2 = o2.ops[0]
+            if o2 is not n and strip_casts(o2) is not n:
+                continue
+            for br in f.uses.get(u, []):
+                if br.op != "br" or len(br.x["succ"]) != 2:
+                    continue
+                short = br.x["succ"][1 if u.pred == "eq" else 0]
+                # every way from `short` to a `return 0` passes a fallback call
+                falls = []
+                for k in f.calls():
+                    if not k.callee:
+                        continue
+                    g = prog.fn(k.callee, f.unit)
+                    if g is None or g.decl or g.unit is not f.unit or not _transfers(prog, g):
+                        continue
+                    if any(x.is_inst and x.op == "sub" and any(y in res for o in x.ops for y in [o] + list(backward_slice(o, phi_control=False)))
+                           for a in k.ops for x in [strip_casts(a)] + list(backward_slice(a, phi_control=False))):
+                        falls.append(k.bb)
+                if not falls:
+                    continue
+                from ..errflow import ret_sources
+                zero = [b for (v, b) in ret_sources(f) if strip_casts(v).is_const and strip_casts(v).is_int and strip_casts(v).sval == 0]
+                seen, st, leak = set(), [short], False
+                while st:
+                    b = st.pop()
+                    if b in seen or b in falls:
+                        continue
+                    seen.add(b)
+                    if b in zero or b.term.op == "ret":
+                        # a return reached without the fallback: fine only if it is not a success
+                        if b in zero:
+                            leak = True
+                    st.extend(b.succs)
+                if not leak:
+                    return True
+    return False
 
 
 def _pure_eintr_retry(f, header, body, call):
@@ -515,6 +576,200 @@ def eof_only_positive(chk, progs):
                     chk.violation("K10-result", inst, c, "the result of get_buffered_data (error / end of stream) is ignored")
 
 
+RAW_OUT = ("pwrite", "pwrite64", "write", "WriteFile")
+
+
+def _transfers(prog, g, depth=0, seen=None):
+    """does g (transitively, same unit) issue a raw output call"""
+    seen = seen if seen is not None else set()
+    if g in seen or g.decl or depth > 3:
+        return False
+    seen.add(g)
+    for c in g.build().calls():
+        nm = norm_callee(c.callee) if c.callee else None
+        if nm in RAW_OUT:
+            return True
+        if c.callee:
+            t = prog.fn(c.callee, g.unit)
+            if t is not None and not t.decl and t.unit is g.unit and _transfers(prog, t, depth + 1, seen):
+                return True
+    return False
+
+
+def end_position(chk, prog):
+    """K10-endpos: an implementation of sqfs_file_t.write_at that keeps the size of the file in a member (the one its
+    get_size hands out) updates it with the position behind *everything* it transferred.  On every path to the store,
+    the value stored depends on the result of each output call on that path; for a helper that transfers the rest and
+    only answers a status, it is formed with the length that helper was given; or it is simply the function's own
+    offset + size.  Otherwise a short write leaves the size behind the data and the next append overwrites the tail."""
+    n = 0
+    for f in sorted(prog.slot_impls(("struct.sqfs_file_t", "write_at")), key=lambda x: x.qname):
+        if f.decl:
+            continue
+        f.build()
+        # the member that get_size of the same unit returns
+        size_fields = set()
+        for g in prog.slot_impls(("struct.sqfs_file_t", "get_size")):
+            if g.decl or g.unit is not f.unit:
+                continue
+            for r in g.build().rets():
+                for x in backward_slice(r.ops[0]) if r.ops else []:
+                    if x.is_inst and x.op == "load":
+                        q = strip_casts(x.ops[0])
+                        if q.is_inst and q.op == "getelementptr" and q.field():
+                            size_fields.add(q.field())
+        stores = [i for i in f.insts() if i.op == "store" and strip_casts(i.ops[1]).is_inst and
+                  strip_casts(i.ops[1]).op == "getelementptr" and strip_casts(i.ops[1]).field() in size_fields]
+        if not stores:
+            continue
+        chk.analysed(f)
+
+        def is_transfer(c):
+            nm = norm_callee(c.callee) if c.callee else None
+            if nm in RAW_OUT:
+                return True
+            if c.callee:
+                t = prog.fn(c.callee, f.unit)
+                return t is not None and not t.decl and t.unit is f.unit and _transfers(prog, t)
+            return False
+        xfers = [c for c in f.calls() if is_transfer(c)]
+        for s_ in stores:
+            n += 1
+            inst = "%s:%s" % (f.name, strip_casts(s_.ops[1]).field()[1])
+            bad = None
+            paths = _acyclic_paths(f, s_.bb, cap=400)
+            for path in paths:
+                sl = _slice_on_path(s_.ops[0], path)
+                ids = {id(x) for x in sl}
+                # offset + size of the function itself
+                if _is_sum_of_params(s_.ops[0], path, f):
+                    continue
+                for c in xfers:
+                    if c.bb not in path or (c.bb is s_.bb and c.pos > s_.pos):
+                        continue
+                    if id(c) in ids:
+                        continue
+                    nm = norm_callee(c.callee) if c.callee else None
+                    if nm not in RAW_OUT:
+                        # a helper that writes `len` bytes at `pos` and answers a status: the value is formed from the very
+                        # position and length it was given
+                        nums = [_resolve_on_path(o, path) for o in c.ops
+                                if not (getattr(o, "ty", "") or "").endswith("*") and not o.is_const]
+                        if nums and all(id(o) in ids for o in nums):
+                            continue
+                    bad = c
+                    break
+                if bad is not None:
+                    break
+            if bad is None:
+                chk.ok("K10-endpos", inst, s_, "the size kept for get_size is set to the position behind everything that was written "
+                       "(%d paths)" % len(paths))
+            else:
+                chk.violation("K10-endpos", inst, s_, "the file size kept by the object is updated with a position that does not account for "
+                              "what %s (line %d) transferred: after a short write the size lies behind the data and the next "
+                              "append overwrites the tail" % (norm_callee(bad.callee) or "the call", bad.line))
+    return n
+
+
+def _is_sum_of_params(v, path, f):
+    v = _resolve_on_path(v, path)
+    if not (v.is_inst and v.op == "add"):
+        return False
+    a, b = (_resolve_on_path(o, path) for o in v.ops)
+    return {id(a), id(b)} == {id(f.params[1]), id(f.params[3])}
+
+
+def _resolve_on_path(v, path):
+    for _ in range(8):
+        while v.is_inst and v.op in ("sext", "zext", "trunc", "bitcast"):
+            v = v.ops[0]
+        if v.is_inst and v.op == "phi" and v.bb in path:
+            k = path.index(v.bb)
+            if k == 0:
+                return v
+            nv = [val for val, p in zip(v.ops, v.x["inc"]) if p is path[k - 1]]
+            if not nv:
+                return v
+            v = nv[0]
+            continue
+        return v
+    return v
+
+
+def _slice_on_path(v, path):
+    """what v is computed from, phis resolved by the edge the path takes"""
+    out, seen, st = [], set(), [v]
+    while st:
+        x = _resolve_on_path(st.pop(), path)
+        if id(x) in seen:
+            continue
+        seen.add(id(x))
+        out.append(x)
+        if x.is_inst and x.op != "phi":
+            st.extend(x.ops)
+    return out
+
+
+def _acyclic_paths(f, target, cap=400):
+    out = []
+
+    def dfs(b, path):
+        if len(out) >= cap:
+            return
+        path = path + [b]
+        if b is target:
+            out.append(path)
+            return
+        for s_ in b.succs:
+            if s_ not in path:
+                dfs(s_, path)
+    dfs(f.blocks[0], [])
+    return out
+
+
+def reposition_rule(chk, prog, units=None):
+    """K10-reposition: what is repeated after EINTR has the same effect the second time.  Inside a loop that is re-entered
+    because errno == EINTR, a seek is absolute (whence is the constant SEEK_SET or SEEK_END): a seek relative to the
+    current position moves twice when the call after it was interrupted."""
+    n = 0
+    for f in prog.functions():
+        src = f.unit.src
+        if f.decl or not (src.startswith("lib/sqfs/src/io/") if units is None else src in units):
+            continue
+        seeks = [c for c in f.build().calls() if norm_callee(c.callee) in ("lseek", "lseek64")]
+        for c in seeks:
+            n += 1
+            chk.analysed(f)
+            inst = "%s:%s@%d" % (f.name, norm_callee(c.callee), c.line)
+            wh = c.ops[2]
+            absolute = wh.is_const and wh.is_int and wh.sval in (0, 2)
+            retried = None
+            for (h, body) in f.loops:
+                if c.bb not in body:
+                    continue
+                for b in body:
+                    if h not in b.succs:
+                        continue
+                    t = b.term
+                    conds = [t.ops[0]] if t.op == "br" and len(t.x["succ"]) == 2 else []
+                    for (cond, _o, _br) in f.guards_at(b):
+                        conds.append(cond)
+                    for cnd in conds:
+                        for x in [cnd] + list(backward_slice(cnd, through_loads=True, limit=200)):
+                            if x.is_inst and x.op == "icmp" and any(o.is_const and o.is_int and o.sval == EINTR for o in x.ops) and \
+                                    any(y.is_inst and y.op == "call" and norm_callee(y.callee) == "__errno_location"
+                                        for y in backward_slice(x, through_loads=True)):
+                                retried = h
+            if retried is None:
+                chk.ok("K10-reposition", inst, c, "the seek is not part of anything that is repeated on EINTR")
+            elif absolute:
+                chk.ok("K10-reposition", inst, c, "repeated on EINTR, but absolute: the second attempt ends where the first did")
+            else:
+                chk.violation("K10-reposition", inst, c, "a seek that may be relative to the current position is inside a loop that is "
+                              "repeated when a later call is interrupted (EINTR): the position moves twice, a hole comes out twice as long")
+    return n
+
+
 def run(chk):
     chk.explanation = (
         "K2 confinement and K10 partial-transfer discipline decided on LLVM IR of all tools: raw read/write/pread/"
@@ -533,6 +788,13 @@ def run(chk):
     from ..tarrules import t1_rule, t2_rule
     t1_rule(chk, progs["tar2sqfs"])
     t2_rule(chk, progs["tar2sqfs"])
+    end_position(chk, progs["gensquashfs"])
+    chk.floor("K10-endpos", 1)
+    reposition_rule(chk, progs["gensquashfs"])
+    chk.floor("K10-reposition", 1)
+    from .c16 import rule_chunk_cut
+    rule_chunk_cut(chk, progs["gensquashfs"])
+    chk.floor("K10-chunkcut", 1)
     chk.floor("K2-raw", 4)
     chk.floor("K10-loop", 4)
     chk.floor("K10-eintr", 2)
@@ -562,3 +824,8 @@ def controls(chk):
     chk.control("K10-advance", ("K10-advance", "ctl_noadvance") in got, "buffer not advanced after a short write")
     chk.control("K10-eintr", ("K10-eintr", "ctl_noeintr") in got, "EINTR treated as an error")
     chk.control("silent-on-good", not any(fn == "ctl_good" for (_r, fn) in got), "correct loop must not be reported")
+    sub2 = Check("C12-control", chk.tier)
+    reposition_rule(sub2, prog, units=("c12_controls.c",))
+    got2 = {(o["rule"], o["function"]) for o in sub2.obl if o["verdict"] == "VIOLATED"}
+    chk.control("K10-reposition", ("K10-reposition", "ctl_seek_again") in got2, "relative seek repeated after an interrupted truncate")
+    chk.control("K10-reposition/silent", ("K10-reposition", "ctl_seek_once") not in got2, "seek once, retry only the truncate")
